@@ -340,6 +340,13 @@ K_STALL_TEXT = ('subsolv gives up after maxittt = 400 Newton steps per epsi leve
                 'optimum; inherited from the reference algorithm (undamped Newton + residual-norm backtracking), no small patch')
 
 
+K_CYCLE = ('minimize_mma', 'iterates approach the known optimum and the constraints end up satisfied',
+           'asybound < 6 (asymptote offset clamped from below at 1/asybound^2 > 1/36)')
+K_CYCLE_TEXT = ('MMA (no globalisation) cycles with constant amplitude on convex problems once the asymptote offset sits on its lower clamp '
+                '1/asybound^2: observed for asybound < 6 (2-cycle, constraint violated at both points); smaller amplitude with the default '
+                'asybound = 10; no small patch')
+
+
 def qv(a):
     return ql(fr(a))
 
@@ -579,11 +586,14 @@ def oracle_run(ctx, rec, prob, label, check_convergence=True):
         d1 = float((np.abs(rec.final - xs) / dx).max())
         gmax = max(float(fn.val(rec.final)) / fn.scale(rec.final) for fn in rec.fns[1:])
         ctx.extra.setdefault('convergence_distances', []).append(round(d1, 6))
-        if d1 > max(CONV_ABS, CONV_REL * d0):
-            bad('minimize_mma', 'iterates approach the known optimum', len(rec.calls), expected=f'<= {max(CONV_ABS, CONV_REL * d0)}', got=d1,
-                xfinal=rec.final.tolist())
-        if gmax > CONV_G:
-            bad('minimize_mma', 'constraints end up satisfied', len(rec.calls), expected=f'<= {CONV_G}', got=gmax, xfinal=rec.final.tolist())
+        if d1 > max(CONV_ABS, CONV_REL * d0) or gmax > CONV_G:
+            small = prob['kw'].get('asybound', 10.0) < 6
+            if small:
+                ctx.count('mma_did_not_converge(asybound<6)')
+            ctx.violation('impl-violates', K_CYCLE[0], K_CYCLE[1], K_CYCLE[2] if small else cls,
+                          dict(pj, iterations=len(rec.calls), xfinal=rec.final.tolist()),
+                          expected=f'distance <= {max(CONV_ABS, CONV_REL * d0)} and scaled constraint violation <= {CONV_G}',
+                          got=dict(distance=d1, initial_distance=d0, constraint=gmax))
 
 
 CONV_ABS, CONV_REL, CONV_G = 0.1, 0.3, 1e-4
@@ -657,7 +667,8 @@ def run(ctx):
         'number of constraints m >= 1 (np.min of an empty array raises for m = 0) and m + n < 100 (epsimin*sqrt(m+n) stays off the powers of ten)',
         'CONVERGENCE IS VALIDATED, NOT PROVED: "iterates approach the optimum, constraints end up satisfied" is checked by the oracle on generated '
         'problems only (partial); MMA without globalisation can cycle on non-separable constraints when the asymptote offset is clamped from below, '
-        f'so the oracle demands distance <= max({CONV_ABS}, {CONV_REL}*initial distance) (relative to xmax-xmin) and scaled constraint violation <= {CONV_G}',
+        f'so the oracle demands only distance <= max({CONV_ABS}, {CONV_REL}*initial distance) (relative to xmax-xmin) and scaled constraint violation <= {CONV_G} '
+        'after 40 (quick) / 60 iterations on problems with at least one active constraint; failures with asybound < 6 are the known finding K-C10-mma-cycles',
         'the Newton direction inside subsolv (which uses np.linalg.solve) and np.linalg.norm are parameters of the model: the interior and exit '
         'theorems hold for every direction / norm; convergence of the Newton iteration is not claimed (known finding: subsolv gives up)',
     ]
@@ -669,9 +680,10 @@ def run(ctx):
         'monkeypatching of pymoto.common.mma.subsolv / residual / MMA.mmasub records faithfully (wrappers only copy arguments and results)',
     ]
     # the give-up finding is reported as a known finding even before known_findings.json lists it
-    if not any(f.get('status') == 'known' and (f['call_site'], f['predicate'], f['input_class']) == K_STALL for f in ctx.findings):
-        ctx.findings.append(dict(property='C10', id='K-C10-subsolv-gives-up', status='known', call_site=K_STALL[0],
-                                 predicate=K_STALL[1], input_class=K_STALL[2], text=K_STALL_TEXT))
+    for kid, trip, text in (('K-C10-subsolv-gives-up', K_STALL, K_STALL_TEXT), ('K-C10-mma-cycles', K_CYCLE, K_CYCLE_TEXT)):
+        if not any(f.get('status') == 'known' and (f['call_site'], f['predicate'], f['input_class']) == trip for f in ctx.findings):
+            ctx.findings.append(dict(property='C10', id=kid, status='known', call_site=trip[0], predicate=trip[1],
+                                     input_class=trip[2], text=text))
     vlib.audit(ctx)
     if not vlib.ensure_static(ctx, ['theories/Props/C10.vo', 'theories/Model/MMAcorr.vo']):
         return
@@ -703,7 +715,7 @@ def run(ctx):
                 todo.append((f'gen:inactive{b}', prob, it_inact, False))
                 b += 1
         elif a < n_act:
-            todo.append((f'gen:active{a}', prob, it_act, conv_class(prob)))
+            todo.append((f'gen:active{a}', prob, it_act, True))
             a += 1
     sub_samples = []
     for label, prob, maxit, conv in todo:
@@ -741,9 +753,11 @@ def run(ctx):
     ctx.obligation('correspondence:case files evaluated', 'correspondence', not err, err)
     if err:
         ctx.violation('correspondence', 'minimize_mma', 'case files compile', 'harness', dict(error=err[-3000:]), theorem='cases_mma')
-    for idx in failing[:12]:
+    for pos, idx in enumerate(failing[:12]):
         aspects, pre, items = parts[idx]
-        vals, e2 = vlib.eval_coq(ctx, f'fail{idx}', HEADER, [pre + '[' + '; '.join(x for _, x in items) + ']'])
+        vals = None
+        if pos < 3:          # which aspect of the case fails (a second, small evaluation; only for the first few)
+            vals, e2 = vlib.eval_coq(ctx, f'fail{idx}', HEADER, [pre + '[' + '; '.join(x for _, x in items) + ']'])
         which = aspects
         if vals:
             bl = vals[0].strip('[] ').split(';')
@@ -754,13 +768,6 @@ def run(ctx):
     ctx.extra['convergence_rule'] = f'distance <= max({CONV_ABS}, {CONV_REL}*d0), scaled constraint violation <= {CONV_G}; partial (validated only)'
     ctx.extra['partial'] = ['convergence of the MMA iteration on convex problems (validated by the oracle only)',
                             'convergence of the Newton iteration inside subsolv (known finding: gives up after 400 steps)']
-
-
-def conv_class(prob):
-    """problems on which convergence is demanded by the oracle: asybound >= 6 (lower clamp of the asymptote offset <= 1/36).
-    With a larger lower clamp MMA (no globalisation) was observed to cycle with constant amplitude on convex problems."""
-    return prob['kw'].get('asybound', 10.0) >= 6
-
 
 
 def call_subsolv(mma, sj, x0):
